@@ -39,20 +39,23 @@ func Execute(ctx context.Context, strategy ExecutionStrategy, members []Member) 
 		return ExecuteAny(ctx, members)
 	case ExecutionStrategyOne:
 		res, i, err := ExecuteOne(ctx, members)
-		allRes := make([]proto.Message, len(members))
-		allRes[i] = res
-		return allRes, err
+		return resultAt(res, i, len(members)), err
 	case ExecutionStrategyFast:
 		res, i, err := ExecuteFast(ctx, members)
-		allRes := make([]proto.Message, len(members))
-		allRes[i] = res
-		return allRes, err
+		return resultAt(res, i, len(members)), err
 	case ExecutionStrategyRace:
 		res, i, err := ExecuteRace(ctx, members)
-		allRes := make([]proto.Message, len(members))
-		allRes[i] = res
-		return allRes, err
+		return resultAt(res, i, len(members)), err
 	}
+}
+
+// resultAt returns n results with only the ith set to res.
+func resultAt(res proto.Message, i, n int) []proto.Message {
+	allRes := make([]proto.Message, n)
+	if i < n { // there might not be any members
+		allRes[i] = res
+	}
+	return allRes
 }
 
 // ExecuteAll executes all the member functions in parallel,
